@@ -30,6 +30,8 @@ def run(ctx):
     cases = [json.loads(json.loads(p)) for p in r.prints if p.startswith('"{')]
     if len(cases) < 5000:
         raise RuntimeError("GEN produced only %d cases" % len(cases))
+    for c in cases:   # -coverage is off (9x slower here); one Init state per case
+        ctx.actions["GenEncodings.Init." + c["kind"]] = ctx.actions.get("GenEncodings.Init." + c["kind"], 0) + 1
     out = ctx.impl("harness/encodings_driver.py", ["--mode", "replay"], input_obj=cases)
     for c in cases:
         st = c.get("strict")
